@@ -127,7 +127,7 @@ func runC20(rng *rand.Rand, scale int, out string, shards int, seed int64, corpu
 				}
 				rec.Outs, rec.Errs = []string{o.Titles[0]}, [][]string{nil}
 			case "rejected":
-				if o.Cls != 4 {
+				if !o.HasPos || o.Pos.Line != len(c.Params)+1 {
 					continue // a `parameter` clause was rejected (bad identifier): not a preprocessing case
 				}
 				rec.Outs, rec.Errs = []string{""}, [][]string{o.Names}
@@ -247,7 +247,7 @@ func runC20(rng *rand.Rand, scale int, out string, shards int, seed int64, corpu
 			posOK := r.Obs.HasPos && r.Obs.Pos.File == modelRoot+"/m.cfg" && r.Obs.Pos.Line == r.Case.Line
 			items = append(items, fmt.Sprintf("mkPL %s %s %d%%N %d%%N %s %s %s %d%%N",
 				vh.Bool(r.Case.Subst), vh.Bool(defined), kindCode(r.Obs), r.Obs.Cls,
-				vh.Bool(hasName(r.Obs.Names, "~p~")), vh.Bool(posOK), vh.Bool(r.Same), kindCode(r.RefObs)))
+				vh.Bool(r.Obs.Kind == "rejected" && strings.Contains(r.Obs.ErrShort, "~p~")), vh.Bool(posOK), vh.Bool(r.Same), kindCode(r.RefObs)))
 		}
 		sb.WriteString("Definition planted_cases : list planted_case := " + vh.ListNL(items) + ".\n")
 
